@@ -9,6 +9,7 @@ class RunResult:
     def __init__(self):
         self.cases = 0; self.lines = 0; self.tags = {}; self.hashes = set()
         self.spec = []; self.diff = []; self.known = {}; self.bad = []; self.crash = []
+        self.timeouts = 0    # shards stopped because the time budget was exhausted
         self.traces = {}     # (shard, case#) -> list of lines
         self.samples = []
 
@@ -33,6 +34,8 @@ class RunResult:
             self.known.setdefault(sig, dict(shard=shard, case=int(f[1]), line=int(f[2]), kind=f[3], count=0))["count"] += 1
         elif line.startswith("BAD "):
             self.bad.append(line)
+        elif line == "TIMEOUT":
+            self.timeouts += 1
 
 
 def pipe_run(shard, producer_cmd, stdin_data=None, env=None, timeout=3000):
@@ -54,7 +57,7 @@ def pipe_run(shard, producer_cmd, stdin_data=None, env=None, timeout=3000):
     except subprocess.TimeoutExpired:
         drv.kill(); prod.kill()
         out, _ = drv.communicate()
-        out += "\nBAD -1 0 timeout\n"
+        out += "\nTIMEOUT\n"          # budget exhausted: not a verdict (the lines judged so far still count)
     prc = prod.wait()
     errf.seek(0)
     err = errf.read().decode(errors="replace")[-4000:]
@@ -78,12 +81,14 @@ def collect(res, shard, lines, prc, err, label):
                 res.samples.append(line[7:])
         else:
             res.merge_line(shard, line, None)
+    if "TIMEOUT" in lines:
+        return                      # the producer was killed with the driver: its exit status says nothing
     if prc not in (0, 3):           # 3 = watchdog (a `hang` line was emitted and is judged by the monitor)
         res.crash.append(f"{label}: harness exit {prc}: {err[-1500:]}")
 
 
 def merge(a, b):
-    a.cases += b.cases; a.lines += b.lines
+    a.cases += b.cases; a.lines += b.lines; a.timeouts += b.timeouts
     for k, v in b.tags.items():
         a.tags[k] = a.tags.get(k, 0) + v
     a.hashes |= b.hashes; a.spec += b.spec; a.diff += b.diff; a.bad += b.bad; a.crash += b.crash
